@@ -139,7 +139,7 @@ def step (st : St) (line : String) : St × String :=
       ({ st with heap := st.heap.writeSeq o s'.seq }, match e with | none => "ok" | some e => showErr e)
     | _, _, _ => (st, "bad-op")
   | ["revcomp", k] =>
-    match st.get false, k.toInt? with
+    match st.get false, (if k == "-" then some (1 : Int) else k.toInt?) with
     | some (_, s), some k =>
       match reverseComplement s k with
       | .ok r =>
@@ -160,6 +160,47 @@ def step (st : St) (line : String) : St × String :=
     | none => (st, "bad-op")
   | ["cp_setint", p, c] =>
     match st.get true, p.toInt?, parseSeq c with
+    | some (o, s), some p, some [c] =>
+      match setInt s p c with
+      | .ok s' => ({ st with heap := st.heap.writeSeq o s'.seq }, "ok")
+      | .error e => (st, showErr e)
+    | _, _, _ => (st, "bad-op")
+  | ["addfeat", f] =>
+    match st.get false, parseFeature f with
+    | some (o, s), some f => ({ st with heap := st.heap.writeAnnot o (annotAdd s.annot f) }, "ok")
+    | _, _ => (st, "bad-op")
+  | ["iadd", fs] =>
+    match st.get false, parseAnnot fs with
+    | some (o, s), some fs => ({ st with heap := st.heap.writeAnnot o (fs.foldl annotAdd s.annot) }, "ok")
+    | _, _ => (st, "bad-op")
+  | ["delfeat", f] =>
+    match st.get false, parseFeature f with
+    | some (o, s), some f =>
+      match annotDel s.annot f with
+      | .ok a => ({ st with heap := st.heap.writeAnnot o a }, "ok")
+      | .error e => (st, showErr e)
+    | _, _ => (st, "bad-op")
+  | ["has", f] =>
+    match st.get false, parseFeature f with
+    | some (_, s), some f => (st, s!"ok {annotHas s.annot f}")
+    | _, _ => (st, "bad-op")
+  | ["count"] =>
+    match st.get false with
+    | some (_, s) => (st, s!"ok {annotCount s.annot}")
+    | none => (st, "bad-op")
+  | ["range"] =>
+    match st.get false with
+    | some (_, s) => (st, s!"ok {(annotRange s.annot).1} {(annotRange s.annot).2}")
+    | none => (st, "bad-op")
+  | ["setslice", a, b, x] =>
+    match st.get false, optInt a, optInt b, parseSeq x with
+    | some (o, s), some a, some b, some x =>
+      match setSlice s a b x with
+      | .ok s' => ({ st with heap := st.heap.writeSeq o s'.seq }, "ok")
+      | .error e => (st, showErr e)
+    | _, _, _, _ => (st, "bad-op")
+  | ["setint", p, c] =>
+    match st.get false, p.toInt?, parseSeq c with
     | some (o, s), some p, some [c] =>
       match setInt s p c with
       | .ok s' => ({ st with heap := st.heap.writeSeq o s'.seq }, "ok")
